@@ -112,6 +112,15 @@ func replayArgs(line []byte, a *Acc) {
 	if call("NewMap", func() { _, err = mv.NewMap(l.S) }) && cls(err) != l.Pair {
 		one("args:pair:error-class", fmt.Sprintf("NewMap(%q): err=%v, specification %s", l.S, err, l.Pair))
 	}
+	// ... and together with a second pair that lands on the SAME new key (values of every kind meet there: scalar, list, map)
+	newKey := l.S
+	if i := strings.LastIndex(l.S, ":"); i >= 0 {
+		newKey = l.S[i+1:]
+	}
+	for _, old := range []string{"a", "b", "a[0]", "a[1]", "b.a", "zz"} {
+		old := old
+		call("NewMap(two pairs, one new key)", func() { mv.NewMap(l.S, old+":"+newKey); mv.NewMap(old+":"+newKey, l.S); mv.NewMap("b:r", l.S, old+":r") })
+	}
 	// leaf enumeration on the Map with empty keys
 	call("LeafNodes", func() { mv.LeafNodes(); mv.LeafNodes(true); mv.LeafPaths(); mv.LeafValues() })
 	if tagged.CanonGo(mv) != l.M.Norm() {
